@@ -90,8 +90,8 @@ class Parser:
     constructs to avoid Python recursion limits.
     """
 
-    def __init__(self, source: str):
-        self.lexer = Lexer(source)
+    def __init__(self, source: str, poll: Optional[Callable[[], bool]] = None):
+        self.lexer = Lexer(source, poll)
         self.current: Token = self.lexer.next_token()
         self.previous: Optional[Token] = None
 
@@ -710,7 +710,8 @@ class Parser:
 
             # Check for =>
             is_arrow = self._check(TokenType.ARROW)
-        except Exception:
+        except JSSyntaxError:
+            # Text the lexer rejects: the parse proper reports it
             pass
 
         # Restore state
